@@ -3,6 +3,7 @@ C01 — Compress then decompress returns the original packet, bit for bit.
 -/
 import Schc.Proofs.Roundtrip
 import Schc.Proofs.Tiling
+import Schc.Proofs.UnparseRoundtrip
 import Schc.Proofs.Direction
 import Schc.Proofs.StackRoundtrip
 import Schc.Proofs.StackRoundtrip4
@@ -110,6 +111,19 @@ theorem C01_end_to_end (cfg : String) (hcfg : cfg ∈ supportedConfigs) (ps : Li
     have hraw : p.raw.bits = p.fields.flatMap (·.value.bits) ++ p.payload.bits := by rw [t2, ← t1]; rfl
     have := C01_manager rules p d st hT hpf (hgood p hp) hraw c hc
     rw [this, t2]
+
+/-- With an unparser (`decompress(schc_packet, rule, unparser=parser)`, the path a receiver takes when the packet
+    was parsed with CoAP options in semantic mode): whatever `PacketParser.unparse` makes of the parsed fields followed
+    by the payload, the concatenation of exactly that comes back — rules of lossless pairings that fit, no compute
+    fields. That the un-parsed list spells the original packet on the IP / UDP / CoAP stacks is `C19_stack_unparse`;
+    joined: `C19_stack_roundtrip`. -/
+theorem C01_unparser_roundtrip (p : Packet) (r : Rule) (hn : r.nature = .compression)
+    (hdir : ∀ rf ∈ r.fields, Spec.dirApplies p.dir rf.dir = true)
+    (happ : Spec.applicable p r = true) (hfit : AllFits p.fields r.fields)
+    (ps : List ParserInst) (target : Compute.Fields)
+    (hun : packetUnparse ps (pairs p.fields ++ [(Gen.payloadId, p.payload)]) = .ok target) :
+    ∃ c, compress p r = .ok c ∧ decompressU c r (some ps) none = .ok ⟨(strip target).flatMap (·.2), .right⟩ :=
+  roundtrip_unparser p r hn hdir happ hfit ps target hun
 
 namespace EndToEndExample
 def bytesBits (l : List Nat) : Bits := l.flatMap (Bits.ofNat 8)
